@@ -470,6 +470,26 @@ fn gen_sc(rng: &mut Rng, flavour: u8) -> Sc {
                 // the directory-wide default says the opposite; the longer path's setting wins
                 shorter.account_type = Some(if liability { "asset" } else { "liability" }.to_string());
             }
+            if rng.chance(1, 2) {
+                // a directory-wide layout that is wrong for this statement in every respect it can be:
+                // the longer path's `format` replaces it as a whole, nothing of it shines through
+                if let Some(f) = &base.format {
+                    let mut junk = f.clone();
+                    junk.new_to_old = !junk.new_to_old;
+                    junk.skip_head += 1;
+                    if let Some(pos) = f.fields.get("date").cloned() {
+                        for k in ["amount", "balance", "commodity", "rate", "secondary_amount", "secondary_commodity", "charge", "category", "note"] {
+                            if !junk.fields.contains_key(k) && rng.chance(1, 2) {
+                                junk.fields.insert(k.to_string(), pos.clone());
+                            }
+                        }
+                    }
+                    if rng.chance(1, 2) {
+                        junk.date = "%d.%m.%Y %H".to_string();
+                    }
+                    shorter.format = Some(junk);
+                }
+            }
             docs.push(shorter);
         }
     }
